@@ -1,6 +1,7 @@
 package main
 
 import (
+	"strings"
 	"bytes"
 	"encoding/json"
 	"os"
@@ -86,6 +87,16 @@ func replaySpecCases(c *Ctx, items []*Item) map[string]*ReplayOutcome {
 	for r := range rootSet {
 		roots = append(roots, r)
 	}
+	// clause-bound case lists of these roots
+	var caseKeys map[string]json.RawMessage
+	if b, err := os.ReadFile(verifDir + "/harness/speccheck/cases.json"); err == nil {
+		_ = json.Unmarshal(b, &caseKeys)
+	}
+	for key := range caseKeys {
+		if i := strings.Index(key, "#"); i > 0 && rootSet[key[:i]] {
+			roots = append(roots, key)
+		}
+	}
 	sort.Strings(roots)
 	bin, err := buildHarness("speccheck")
 	if err != nil {
@@ -108,8 +119,15 @@ func replaySpecCases(c *Ctx, items []*Item) map[string]*ReplayOutcome {
 	if json.Unmarshal(out, &parsed) != nil {
 		return res
 	}
+	// a case list may be bound to one clause of the function: key "root#label" answers only for
+	// obligations whose name contains the label
 	for _, it := range items {
 		r := parsed.Results[it.Root]
+		for key, rr := range parsed.Results {
+			if i := strings.Index(key, "#"); i > 0 && key[:i] == it.Root && strings.Contains(it.Name, key[i+1:]) {
+				r = rr
+			}
+		}
 		if r == nil || r.Ran == 0 || it.Status == "unknown" || it.Status == "timeout" {
 			continue
 		}
